@@ -29,14 +29,14 @@ SliceEq(sub, new, j) == j + Len(sub) - 1 <= Len(new) /\ \A q \in 1..Len(sub) : n
 \* "while di < dj: di *= shape[i]; ..." - running off the end is an IndexError in Python
 RECURSIVE FuseScan(_, _, _, _, _)
 FuseScan(shape, i, di, dj, s) ==
-  IF di >= dj THEN [ok |-> di = dj, i |-> i, s |-> s]
-  ELSE IF i > Len(shape) THEN [ok |-> FALSE, i |-> i, s |-> s]
+  IF di >= dj THEN [ok |-> di = dj, why |-> "value", i |-> i, s |-> s]
+  ELSE IF i > Len(shape) THEN [ok |-> FALSE, why |-> "index", i |-> i, s |-> s]
   ELSE FuseScan(shape, i + 1, di * shape[i], dj, s + 1)
 
 \* the main loop (lines 441-495)
 RECURSIVE MatchLoop(_, _, _, _)
 MatchLoop(shape, new, subs, st) ==
-  IF st.err \/ st.i > Len(shape) \/ st.j > Len(new) THEN st
+  IF st.err # "" \/ st.i > Len(shape) \/ st.j > Len(new) THEN st
   ELSE LET di == shape[st.i]
            dj == new[st.j]
            sb == subs[st.i]
@@ -52,19 +52,21 @@ MatchLoop(shape, new, subs, st) ==
           THEN MatchLoop(shape, new, subs, [st EXCEPT !.exp = Append(@, st.k), !.j = @ + 1])
           ELSE IF di < dj
           THEN LET r == FuseScan(shape, st.i + 1, di, dj, 1) IN
-               IF ~r.ok THEN [st EXCEPT !.err = TRUE]
+               IF ~r.ok THEN [st EXCEPT !.err = r.why]
                ELSE MatchLoop(shape, new, subs,
                       [st EXCEPT !.term = @ \o RepSeq(LabG(Len(st.fus)), r.s), !.fus = Append(@, r.s), !.anyf = TRUE,
                                  !.i = r.i, !.j = @ + 1, !.k = @ + 1])
-          ELSE [st EXCEPT !.err = TRUE]
+          ELSE [st EXCEPT !.err = "value"]
 
-\* lines 497-502: trailing input axes are taken to be squeezable, trailing output axes are expansions
+\* trailing axes: leftover input axes are squeezed, leftover output axes are expansions - both must have size one
 Trailing(shape, new, st) ==
   LET ni == Len(shape) - st.i + 1
       nj == Len(new) - st.j + 1
-  IN [st EXCEPT !.term = @ \o RepSeq(LabS, IF ni > 0 THEN ni ELSE 0),
-                !.anys = @ \/ ni > 0,
-                !.exp = @ \o RepSeq(st.k, IF nj > 0 THEN nj ELSE 0)]
+  IN IF (\E q \in st.i..Len(shape) : shape[q] # 1) \/ (\E q \in st.j..Len(new) : new[q] # 1)
+     THEN [st EXCEPT !.err = "value"]
+     ELSE [st EXCEPT !.term = @ \o RepSeq(LabS, IF ni > 0 THEN ni ELSE 0),
+                     !.anys = @ \/ ni > 0,
+                     !.exp = @ \o RepSeq(st.k, IF nj > 0 THEN nj ELSE 0)]
 
 \* lines 504-509
 RECURSIVE DoUnfuse(_, _, _, _)
@@ -114,21 +116,38 @@ FuseLoop(term, fus, p, cur, out) ==
        ELSE LET s == fus[term[p].n + 1] IN
             FuseLoop(term, fus, p + s, Append(cur, [q \in 1..s |-> (p - 1) + (q - 1)]), out)
 
-Raise == [ok |-> FALSE, unfuse |-> <<>>, fuse |-> <<>>, expand |-> <<>>]
-CalcReshapeArgs(shape, new, subs) ==
+\* why: "value" = ValueError (shape mismatch), "index" = IndexError (running off the end of a list)
+RaiseOf(why) == [ok |-> FALSE, why |-> why, unfuse |-> <<>>, fuse |-> <<>>, expand |-> <<>>]
+\* the greedy parse (_calc_reshape_args)
+CalcGreedy(shape, new, subs) ==
   LET st0 == [i |-> 1, j |-> 1, k |-> 0, term |-> <<>>, unf |-> <<>>, fus |-> <<>>, exp |-> <<>>,
-              anys |-> FALSE, anyf |-> FALSE, err |-> FALSE]
+              anys |-> FALSE, anyf |-> FALSE, err |-> ""]
       st1 == MatchLoop(shape, new, subs, st0)
-  IN IF st1.err THEN Raise
-     ELSE LET st2 == Trailing(shape, new, st1)
+  IN IF st1.err # "" THEN RaiseOf(st1.err)
+     ELSE LET st2 == Trailing(shape, new, st1) IN
+          IF st2.err # "" THEN RaiseOf(st2.err) ELSE
+          LET
               un == DoUnfuse(st2.term, st2.unf, 0, <<>>)
               sq == IF st2.anys
                     THEN LET a == SqueezeLeft(un.term, st2.fus) IN
                          IF a.err THEN [term |-> un.term, fus |-> st2.fus, err |-> TRUE]
                          ELSE LET b == SqueezeRest(a.term, a.fus, a.p) IN [term |-> b.term, fus |-> b.fus, err |-> FALSE]
                     ELSE [term |-> un.term, fus |-> st2.fus, err |-> FALSE]
-          IN IF sq.err THEN Raise
-             ELSE [ok |-> TRUE, unfuse |-> un.axs,
+          IN IF sq.err THEN RaiseOf("index")
+             ELSE [ok |-> TRUE, why |-> "", unfuse |-> un.axs,
                    fuse |-> IF st2.anyf \/ st2.anys THEN FuseLoop(sq.term, sq.fus, 1, <<>>, <<>>) ELSE <<>>,
                    expand |-> RevSeq(st2.exp)]
+\* calc_reshape_args: unfusing is matched greedily; when that cannot give the new shape, the fused axes are, one after
+\* the other (first success wins, recursively), kept as they are
+RECURSIVE CalcReshapeArgs(_, _, _)
+CalcReshapeArgs(shape, new, subs) ==
+  LET g == CalcGreedy(shape, new, subs) IN
+  IF g.ok \/ g.why = "index" THEN g     \* only a ValueError is caught
+  ELSE LET fusedax == SelectSeq([i \in 1..Len(subs) |-> i], LAMBDA i : subs[i] # <<>>)
+           try(i) == CalcReshapeArgs(shape, new, [subs EXCEPT ![i] = <<>>])
+           RECURSIVE First(_)
+           \* (an IndexError inside a retry is not caught by "except ValueError" either: it propagates)
+           First(k) == IF k > Len(fusedax) THEN g
+                       ELSE LET r == try(fusedax[k]) IN IF r.ok \/ r.why = "index" THEN r ELSE First(k + 1)
+       IN First(1)
 =============================================================================
